@@ -1178,7 +1178,7 @@ example : rawSiteOk ⟨"mahotas/_interpolate.cpp", "py_spline_filter1d", 387, "P
     rawSiteOk ⟨"mahotas/_x.cpp", "f", 10, "PyEval_SaveThread", 0, 0⟩ = false ∧
     rawSiteOk ⟨"mahotas/_x.cpp", "g", 20, "Py_BEGIN_ALLOW_THREADS", 1, 0⟩ = true := by decide
 
-/-! ## Round 4 — third table of access programs (`Model/C12Kernels3.lean`): `majority_filter`, `locmin_max` -/
+/-! ## Round 4 — third table of access programs (`Model/C12Kernels3.lean`): `majority_filter`, `locmin_max`, `hitmiss` -/
 
 open Mahotas Mahotas.C12 in
 /-- **C12-T4 (third table: confinement).** `C12_kernel_confined` for every kernel of `Kernel3` (`majority_filter`,
@@ -1272,6 +1272,31 @@ theorem C12_locminmax_program_computes_model (kcs : List KCall) (t : Nat) (isMin
       if C14.locAt isMin A (C14.neighbours vBc.shape bc) (unravelI vA.shape k) then 1 else 0 :=
   locminmax_solo_value kcs t isMin vA vOut vBc bc aA aBc aOut aFd hk hne1 hne2 hne3 A hshape hpos m hA hC hZ hinj k hkn
 
+open Mahotas Mahotas.C12 in
+/-- **C12-T4 (tie: the hitmiss program computes the C08 view model of `hitmiss`).** Let call number `t` of ANY family of calls
+be `hitmiss` on arrays `[aA, aBc]` → `[aOut]` (`aA ≠ aOut`), its program generated from the neighbour table `tab`
+(`C08.hmTable vA mB vB`: flat deltas and required values of the template entries different from 2) of a template of shape
+`bshape`; the input may be ANY view (the kernel reads `input.at_flat(i + delta)`). If the initial memory holds `mA` in array
+`aA` and the result view does not overlap itself, then after the SOLO run of the compiled step program — one unconditional
+store per pixel, recomputed from the values READ — the result location of pixel `k` holds exactly the cell `k` of
+`C08.hitmissView mA vA mB vB`: `0` where `C14.hmEvaluated` skips the pixel, else `1` iff every table entry matches. That model
+is run by the driver (`c08 kind=kview kernel=hitmiss`, compared with the compiled function on strided views) and proved equal
+to `C14.hitmissAt` and the hit-or-miss definition (`C08_hitmiss_view_correct`). -/
+theorem C12_hitmiss_program_computes_model (kcs : List KCall) (t : Nat) (vA vOut : C08.View) (mB : Int → Int)
+    (vB : C08.View) (aA aBc aOut : Nat)
+    (hk : kcs[t]? = some ((Kernel3.hitmiss vA vOut (C08.hmTable vA mB vB) vB.shape).call ⟨[aA, aBc], [aOut]⟩))
+    (hne : aA ≠ aOut) (mA : Int → Int) (m : Mem)
+    (hA : ∀ a, m ((KLoc.mk aA a).toLoc (kcs.map (·.call))) = mA a)
+    (hinj : ∀ k k', k < shapeSize vA.shape → k' < shapeSize vA.shape →
+        iterAddr vOut k = iterAddr vOut k' → k = k')
+    (k : Nat) (hkn : k < shapeSize vA.shape) :
+    some (solo (compile kcs) t m ((KLoc.mk aOut (iterAddr vOut k)).toLoc (kcs.map (·.call)))) =
+      (C08.hitmissView mA vA mB vB).getD k none := by
+  rw [hitmiss_solo_value kcs t vA vOut (C08.hmTable vA mB vB) vB.shape aA aBc aOut hk hne mA m hA hinj k hkn]
+  unfold C08.hitmissView
+  rw [C08.pixelLoop_eq, Array.getD_eq_getD_getElem?, List.getElem?_toArray, List.getElem?_map, List.getElem?_range hkn]
+  simp only [Option.map_some, Option.getD_some]
+
 namespace Mahotas.C12.Examples4
 open Mahotas.C12.Examples2
 /-- non-vacuity: a 4×4 bool image in Fortran order (array 10), window 2, output array 20: the solo run of the compiled
@@ -1301,5 +1326,18 @@ example :
     (C14.locModel false ⟨[4], #[5, 3, 7, 0]⟩ (C14.neighbours [3] #[1, 0, 1])).toList = [true, false, true, false] ∧
     ((kl.call cl).prog.all (KStep.withinB cl)) = true ∧
     (kl.raw.all (RStep.rolesOk kl.arity)) = true := by
+  decide +kernel
+/-- a `hitmiss` call: input `[1,0,1,1]` (array 10), template `[1,2,1]` read from Bc's memory; the solo run of the compiled
+program = `C08.hitmissView` (the margins are skipped, pixel 2 does not match, pixel 1 does) -/
+example :
+    let mT : Int → Int := fun a => [1, 2, 1].getD a.toNat 0
+    let mI : Int → Int := fun a => [1, 0, 1, 1].getD a.toNat 0
+    let kh : Kernel3 := .hitmiss v4 v4 (C08.hmTable v4 mT v3) [3]
+    let ch : Call := ⟨[10, 11], [30]⟩
+    let contentH : List (KLoc × Val) := [(⟨10,0⟩,1),(⟨10,1⟩,0),(⟨10,2⟩,1),(⟨10,3⟩,1)]
+    outOf [ch] (solo (compile [kh.call ch]) 0 (memOf [ch] contentH)) 30 4 = [0, 1, 0, 0] ∧
+    (C08.hitmissView mI v4 mT v3).toList = [some 0, some 1, some 0, some 0] ∧
+    ((kh.call ch).prog.all (KStep.withinB ch)) = true ∧
+    (kh.raw.all (RStep.rolesOk kh.arity)) = true := by
   decide +kernel
 end Mahotas.C12.Examples4
